@@ -83,8 +83,12 @@ def build_action(case):
     action = factory._create_action(ael, svs)  # noqa: SLF001
     svc = UpnpService(req, ServiceInfo("urn:upnp-org:serviceId:S", case["st"], case["ctrl"], "/evt", "/scpd.xml", ET.Element("service")),
                       svs, [action])
-    UpnpDevice(req, DeviceInfo("urn:schemas-upnp-org:device:D:1", "n", "m", None, None, "mn", None, None, None, "uuid:d",
-                               None, None, case["base"], [], ET.Element("device")), [svc], [])
+
+    def mkdev(base, services):
+        return UpnpDevice(req, DeviceInfo("urn:schemas-upnp-org:device:D:1", "n", "m", None, None, "mn", None, None, None, "uuid:d",
+                                          None, None, base, [], ET.Element("device")), services, [])
+    dev = mkdev(case.get("prime_base") or case["base"], [svc])
+    action._verif_move = (lambda: dev.reinit(mkdev(case["base"], []))) if case.get("prime_base") else (lambda: None)  # noqa: SLF001
     return action, req
 
 
@@ -308,6 +312,8 @@ class Plugin:
         case["prime"] = [first]
         if rng.random() < 0.3:
             case["prime"].append([[a["name"], enc(self._good_value(rng, a))] for a in ins])
+        if rng.random() < 0.35:
+            case["prime_base"] = rng.choice([b for b in BASES if b != case["base"]])
         if rng.random() < 0.6:
             good = dict((k, dec(j)) for k, j in first)
             kw = []
@@ -437,6 +443,8 @@ class Plugin:
                 _loop().run_until_complete(action.async_call(**{k: dec(j) for k, j in pk}))
             except Exception:  # noqa: BLE001
                 pass
+        # the device moved (DeviceUpdater: device.reinit with the description at a new URL) after the earlier calls
+        action._verif_move()  # noqa: SLF001
         req.calls.clear()
         kwargs = {k: dec(j) for k, j in case["kwargs"]}
         err = None
@@ -554,12 +562,18 @@ class Plugin:
                 vals[t] = vals.get(t, 0) + 1
         return {"outcomes": kinds, "in_arguments": dict(sorted(n_in.items())), "in_argument_types": types, "value_kinds": vals,
                 "with_earlier_calls": sum(1 for c in cases if c.get("prime")),
+                "device_moved_before_call": sum(1 for c in cases if c.get("prime_base")),
                 "non_strict": sum(1 for c in cases if not c["strict"])}
 
     def shrink(self, case):
+        if case.get("prime_base"):
+            c = json.loads(json.dumps(case))
+            del c["prime_base"]
+            yield c
         if case.get("prime"):
             c = json.loads(json.dumps(case))
             del c["prime"]
+            c.pop("prime_base", None)
             yield c
             if len(case["prime"]) > 1:
                 for i in range(len(case["prime"])):
